@@ -175,7 +175,11 @@ def opFromRaw : Handler := fun args impl =>
 def ops : List (String × Handler) :=
   [("z.add", binZ add S.addSpec), ("z.sub", binZ sub S.subSpec), ("z.mul", binZ mul S.mulSpec),
    ("q.add", binQ add S.addSpec), ("q.sub", binQ sub S.subSpec), ("q.mul", binQ mul S.mulSpec),
-   ("z.neg", opNegZ), ("z.of", opOfZ), ("q.of", opOfQ), ("z.diff", opDiff), ("z.contpp", opContPP),
+   ("z.neg", opNegZ),
+   -- the operator impls on owned values (separate code in polynomial.rs): same specification
+   ("z.add.o", binZ add S.addSpec), ("z.sub.o", binZ sub S.subSpec), ("z.mul.o", binZ mul S.mulSpec),
+   ("q.add.o", binQ add S.addSpec), ("q.sub.o", binQ sub S.subSpec), ("q.mul.o", binQ mul S.mulSpec),
+   ("z.neg.o", opNegZ), ("z.of", opOfZ), ("q.of", opOfQ), ("z.diff", opDiff), ("z.contpp", opContPP),
    ("z.pseudo", opPseudo), ("z.divmonic", opDivRemMonic), ("z.divexact", opDivExact),
    ("q.divrem", opDivRemQ), ("z.laws", opLaws), ("q.laws", opLaws), ("z.fromraw", opFromRaw)]
 
